@@ -43,6 +43,8 @@ def cases(tier, seed):
                         crops=(None if i % 3 else [c for c in gen.usable_crops() if c in common.gdd_crops()]))
         sp["pad_before"] = 3
         sp["pad_after"] = 3
+        if i % 2:
+            gen.et0_spike(rng, sp)     # a value far outside the spread of its column
         out.append({"spec": sp, "seed": int(rng.integers(0, 2 ** 31 - 1)),
                     "all_perms": tier == "thorough" and i % 4 == 0})
     return out
